@@ -55,6 +55,9 @@ def guards_to_ifelse(stmts, exit_kinds=(ast.Return, ast.Raise)):
                 return out
             out.append(ast.copy_location(ast.If(test=st.test, body=body, orelse=orelse), st))
             continue
+        if isinstance(st, ast.With) and not rest:
+            out.append(ast.copy_location(ast.With(items=st.items, body=guards_to_ifelse(st.body, exit_kinds)), st))
+            continue
         out.append(st)
     return out
 
@@ -135,6 +138,11 @@ def _tail_returns_only(stmts) -> bool:
                 continue
             if isinstance(st, (ast.FunctionDef, ast.AsyncFunctionDef, ast.ClassDef)):
                 return False
+            if isinstance(st, ast.With):
+                # `with cm: ...; return e` in tail position: the value is computed inside the block either way
+                if not ok(st.body, is_last):
+                    return False
+                continue
             if any(isinstance(x, ast.Return) for x in ast.walk(st)):
                 return False
         return True
@@ -273,6 +281,8 @@ class Inliner:
                 out += sink(last.value)
             elif isinstance(last, ast.If):
                 out.append(ast.copy_location(ast.If(test=last.test, body=tails(last.body), orelse=tails(last.orelse)), last))
+            elif isinstance(last, ast.With) and any(isinstance(x, ast.Return) for x in ast.walk(last)):
+                out.append(ast.copy_location(ast.With(items=last.items, body=tails(last.body)), last))
             elif isinstance(last, ast.Raise):
                 out.append(last)
             else:
